@@ -46,7 +46,7 @@ def impl_vocab(case):
         os.makedirs(vs)
         os.makedirs(sb)
         for target, d in (('vscode', vs), ('sublime', sb)):
-            p = subprocess.run([C.PY, '-m', 'bespokeasm', 'generate-extension', target, '-c', isa, '-d', d],
+            p = subprocess.run([C.PY, '-m', 'bespokeasm', 'generate-extension', target, '-c', isa, '-d', d] + ['-v'] * case.get('verbose', 0),
                                capture_output=True, text=True, timeout=120, env=C.impl_env(), cwd=td)
             if p.returncode != 0:
                 raise SystemExit(f'{target} generator failed: {p.stderr[-300:]}')
@@ -268,7 +268,8 @@ def gen_vocab_cases(rng, tier):
                 keycase[nm] = rng.choice([nm.upper(), nm.capitalize()])
         out.append({'instrs': instrs, 'macros': macros, 'regs': regs, 'labels': labels, 'probes': probes, 'keycase': keycase,
                     # the language name names the generated files: also names that begin with a dot or contain one
-                    'lang': rng.choice(['vocab-test', 'vocab-test', '.tiny8', 'cpu.v2', 'my_lang', 'R&D-cpu', 'a<b']),
+                    'lang': rng.choice(['vocab-test', 'vocab-test', '.tiny8', 'cpu.v2', 'my_lang', 'R&D-cpu', 'a<b', '[proto]tiny8', '*star8', "'88micro", 'name:']),
+                    'verbose': rng.choice([0, 0, 1, 3]),
                     'description': rng.choice(['verif vocab', 'Tiny 8-bit CPU <R&D build>, "rev. B"', "it's <b>bold</b> & more", 'plain'])})
     return out
 
